@@ -173,6 +173,7 @@ pub fn sched_point() {
     }
 }
 
+#[cfg(not(n2_verif_shuttle))]
 pub fn sim_command(
     cmdline: &str,
     out: &mut dyn FnMut(&[u8]),
@@ -180,11 +181,35 @@ pub fn sim_command(
     with_host(|h| h.command(cmdline, out)).flatten()
 }
 
+#[cfg(not(n2_verif_shuttle))]
 pub fn args(p: lexopt::Parser) -> lexopt::Parser {
     match with_host(|h| h.args()) {
         Some(a) => lexopt::Parser::from_args(a),
         None => p,
     }
+}
+
+/// Engine E2 (shuttle): the simulated subprocess and argv are plain statics,
+/// because task threads are real (shuttle-scheduled) threads.
+#[cfg(n2_verif_shuttle)]
+pub type CmdFn = fn(&str, &mut dyn FnMut(&[u8])) -> anyhow::Result<Termination>;
+#[cfg(n2_verif_shuttle)]
+pub static SHUTTLE_CMD: ::std::sync::Mutex<Option<CmdFn>> = ::std::sync::Mutex::new(None);
+#[cfg(n2_verif_shuttle)]
+pub static SHUTTLE_ARGS: ::std::sync::Mutex<Vec<String>> = ::std::sync::Mutex::new(Vec::new());
+
+#[cfg(n2_verif_shuttle)]
+pub fn sim_command(
+    cmdline: &str,
+    out: &mut dyn FnMut(&[u8]),
+) -> Option<anyhow::Result<Termination>> {
+    let f = (*SHUTTLE_CMD.lock().unwrap())?;
+    Some(f(cmdline, out))
+}
+
+#[cfg(n2_verif_shuttle)]
+pub fn args(_p: lexopt::Parser) -> lexopt::Parser {
+    lexopt::Parser::from_args(SHUTTLE_ARGS.lock().unwrap().clone())
 }
 
 fn st(s: BuildState) -> u8 {
@@ -380,6 +405,13 @@ pub mod shim {
         }
     }
 
+    #[cfg(n2_verif_shuttle)]
+    pub mod thread {
+        pub use ::shuttle::thread::*;
+        pub use ::std::thread::available_parallelism;
+    }
+
+    #[cfg(not(n2_verif_shuttle))]
     pub mod thread {
         pub use ::std::thread::*;
         /// Store the closure; the simulator decides when it executes.
@@ -401,6 +433,13 @@ pub mod shim {
         }
     }
 
+    #[cfg(n2_verif_shuttle)]
+    pub mod sync {
+        pub use ::shuttle::sync::mpsc;
+        pub use ::std::sync::*;
+    }
+
+    #[cfg(not(n2_verif_shuttle))]
     pub mod sync {
         pub use ::std::sync::*;
         /// Per-sender FIFO queues whose heads the simulator interleaves.
@@ -513,4 +552,112 @@ pub mod shim {
 /// between simulated invocations).
 pub fn set_interrupted(v: bool) {
     crate::signal::verif_set_interrupted(v);
+}
+
+/// Engine E2: state of the simulated terminal and clock.
+#[cfg(n2_verif_shuttle)]
+pub mod tty {
+    use ::std::sync::atomic::{AtomicU64, AtomicUsize, Ordering};
+    /// simulated monotonic clock
+    pub static CLOCK_NS: AtomicU64 = AtomicU64::new(0);
+    /// how many more condvar waits may end by time-out in this execution
+    pub static TIMEOUT_BUDGET: AtomicUsize = AtomicUsize::new(0);
+    /// everything the fancy progress wrote to its stdout
+    pub static CAPTURED: ::std::sync::Mutex<Vec<u8>> = ::std::sync::Mutex::new(Vec::new());
+    pub fn advance(d: ::std::time::Duration) {
+        CLOCK_NS.fetch_add(d.as_nanos() as u64, Ordering::SeqCst);
+    }
+}
+
+/// Engine E2: `std` as seen by progress_fancy.rs — shuttle threads and locks,
+/// simulated `Instant`, sleeps and condvar time-outs, captured stdout.
+#[cfg(n2_verif_shuttle)]
+pub mod shim_tty {
+    pub use ::std::*;
+    pub mod time {
+        pub use ::std::time::Duration;
+        #[derive(Clone, Copy, Debug)]
+        pub struct Instant(Duration);
+        impl Instant {
+            pub fn now() -> Instant {
+                Instant(Duration::from_nanos(
+                    super::super::tty::CLOCK_NS.load(::std::sync::atomic::Ordering::SeqCst),
+                ))
+            }
+            pub fn duration_since(&self, earlier: Instant) -> Duration {
+                self.0.saturating_sub(earlier.0)
+            }
+        }
+    }
+    pub mod thread {
+        pub use ::shuttle::thread::{spawn, JoinHandle};
+        pub fn sleep(d: ::std::time::Duration) {
+            super::super::tty::advance(d);
+            ::shuttle::thread::sleep(d);
+        }
+    }
+    pub mod io {
+        pub use ::std::io::*;
+        pub struct Cap;
+        pub fn stdout() -> Cap {
+            Cap
+        }
+        impl Write for Cap {
+            fn write(&mut self, b: &[u8]) -> Result<usize> {
+                super::super::tty::CAPTURED
+                    .lock()
+                    .unwrap()
+                    .extend_from_slice(b);
+                Ok(b.len())
+            }
+            fn flush(&mut self) -> Result<()> {
+                Ok(())
+            }
+        }
+    }
+    pub mod sync {
+        pub use ::shuttle::sync::{Mutex, MutexGuard};
+        pub use ::std::sync::Arc;
+        use ::std::sync::PoisonError;
+        use ::std::time::Duration;
+        pub struct Timeout(pub bool);
+        /// shuttle's Condvar never times out; here the scheduler's PRNG decides
+        /// whether a wait ends by time-out (advancing the simulated clock).
+        pub struct Condvar(::shuttle::sync::Condvar);
+        impl Condvar {
+            pub fn new() -> Self {
+                Condvar(::shuttle::sync::Condvar::new())
+            }
+            pub fn notify_one(&self) {
+                self.0.notify_one()
+            }
+            pub fn wait_timeout_while<'a, T, F>(
+                &self,
+                mut guard: MutexGuard<'a, T>,
+                dur: Duration,
+                mut cond: F,
+            ) -> Result<(MutexGuard<'a, T>, Timeout), PoisonError<(MutexGuard<'a, T>, Timeout)>>
+            where
+                F: FnMut(&mut T) -> bool,
+            {
+                use ::shuttle::rand::Rng;
+                use ::std::sync::atomic::Ordering::SeqCst;
+                loop {
+                    if !cond(&mut *guard) {
+                        return Ok((guard, Timeout(false)));
+                    }
+                    let left = super::super::tty::TIMEOUT_BUDGET.load(SeqCst);
+                    if left > 0 && ::shuttle::rand::thread_rng().gen_bool(0.5) {
+                        super::super::tty::TIMEOUT_BUDGET.store(left - 1, SeqCst);
+                        super::super::tty::advance(dur);
+                        return Ok((guard, Timeout(true)));
+                    }
+                    guard = match self.0.wait(guard) {
+                        Ok(g) => g,
+                        Err(e) => return Err(PoisonError::new((e.into_inner(), Timeout(false)))),
+                    };
+                }
+            }
+        }
+    }
 }
